@@ -160,6 +160,7 @@ let judge_case (cid : string) (cmds : string list) (obs : (string * string * str
   let hist = ref [] in
   let shape = Buffer.create 32 in   (* history shape: one letter per command *)
   let tainted = ref false in        (* pending constraints were incorporated from a state flagged `risk' *)
+  let judged_queries = ref 0 in     (* queries of this case whose answer was compared with a decided reference answer *)
   List.iteri (fun idx (line, (lb, lr, ls, lf)) ->
       incr stats_steps;
       let step_no = idx + 1 in
@@ -198,6 +199,9 @@ let judge_case (cid : string) (cmds : string list) (obs : (string * string * str
       let undecided kind = incr stats_undecided; report "UNDECIDED" cid step_no kind line (feats []) in
       let check () = incr stats_checks in
       (match rf with Ans rr -> bump ("ref:" ^ sol_name (ref_sol rr)) | OutOfFuel -> bump "ref:undecided");
+      (match parsed, rf with
+       | Cmd (Solve | IsSatisfiable | FeasiblePoint | OptimizingPoint | OptimalValue), Ans _ -> incr judged_queries
+       | _ -> ());
       (match rf, rlp with
        | Ans a, Ans b when nints > 0 ->
          (match a, b with
@@ -323,7 +327,8 @@ let judge_case (cid : string) (cmds : string list) (obs : (string * string * str
          (match fo.fpt with Some p when not (feasible_b data p) -> fail "fresh/solve" ["got", "infeasible witness " ^ string_of_pt p] | _ -> ());
          if fo.fsat <> (fo.fsol <> UNFEASIBLE_MIP_PROBLEM) then fail "fresh/solve-vs-sat" ["solve", sol_name fo.fsol; "sat", string_of_bool fo.fsat];
          undecided "fresh/solve"))
-    (List.combine cmds obs)
+    (List.combine cmds obs);
+  if !judged_queries > 0 then Printf.printf "NT %s %d\n" cid !judged_queries
 
 (* ---- main: split both files into cases ---- *)
 let read_lines f = let ic = open_in f in let rec go acc = match input_line ic with l -> go (l :: acc) | exception End_of_file -> close_in ic; List.rev acc in go []
